@@ -120,12 +120,12 @@ class Track:
                 self.stale[j] = True
 
 
-def gen_case(rng, malformed=False):
+def gen_case(rng, malformed=False, long=False):
     pneg = 0.45 if malformed else 0.12
     t = Track()
     ops = []
     flags = set()
-    nops = rng.randint(3, 14)
+    nops = rng.randint(3, 40 if long else 14)
     while len(ops) < nops:
         live = list(range(len(t.kind)))
         r = rng.random()
@@ -524,7 +524,8 @@ def run_cases(ctx, cases, ref=False, with_model=True):
         if with_model:
             res["failures"] += compare(c, o, m)
         d["stream:" + ("malformed" if c["malformed"] else "valid")] += 1
-        d["ops:%s" % ("<=5" if len(c["ops"]) <= 5 else "6-10" if len(c["ops"]) <= 10 else "11-14")] += 1
+        d["ops:%s" % ("<=5" if len(c["ops"]) <= 5 else "6-10" if len(c["ops"]) <= 10 else
+                      "11-14" if len(c["ops"]) <= 14 else "15-40")] += 1
         for op, st in zip(c["ops"], o["steps"]):
             tag = op[0]
             if op[0] in ("rep", "array", "rewrap"):
@@ -545,11 +546,12 @@ def run_cases(ctx, cases, ref=False, with_model=True):
 
 
 def chunk(sub, n):
-    return run_cases(sub, [gen_case(sub.rng, malformed=(i % 3 == 2)) for i in range(n)])
+    return run_cases(sub, [gen_case(sub.rng, malformed=(i % 3 == 2), long=not sub.quick and i % 2 == 0)
+                           for i in range(n)])
 
 
 def correspond(ctx):
-    return H.run_chunks(ctx, chunk, ctx.n(700, 48000), chunk=350 if ctx.quick else 1500)
+    return H.run_chunks(ctx, chunk, ctx.n(700, 200000), chunk=350 if ctx.quick else 1500)
 
 
 def search_chunk(sub, n):
